@@ -31,12 +31,15 @@ func TestReplay(t *testing.T) {
 		t.Fatal(err)
 	}
 	var doc struct {
-		Property string          `json:"property"`
-		Kind     string          `json:"kind"`
-		Steps    []world.Step    `json:"steps"`
-		AolGen   json.RawMessage `json:"aol_genesis"`
-		DidGen   json.RawMessage `json:"did_genesis"`
-		PnftGen  json.RawMessage `json:"pnft_genesis"`
+		Property string                 `json:"property"`
+		Kind     string                 `json:"kind"`
+		Steps    []world.Step           `json:"steps"`
+		AolGen   json.RawMessage        `json:"aol_genesis"`
+		DidGen   json.RawMessage        `json:"did_genesis"`
+		PnftGen  json.RawMessage        `json:"pnft_genesis"`
+		Bank     *world.BankSetup       `json:"bank_setup"`
+		Node     map[string]interface{} `json:"node_options"`
+		TwinNode map[string]interface{} `json:"twin_node_options"`
 	}
 	if err := json.Unmarshal(bz, &doc); err != nil {
 		t.Fatal(err)
@@ -47,7 +50,9 @@ func TestReplay(t *testing.T) {
 		if cfg == nil {
 			t.Fatalf("no machine for %s", doc.Property)
 		}
-		if _, err := replayHistory(cfg, doc.Steps, doc.AolGen, doc.DidGen, doc.PnftGen); err != nil {
+		if _, err := replayHistory(cfg, doc.Steps, doc.AolGen, doc.DidGen, doc.PnftGen, func(o *world.Options) {
+			o.Bank, o.Node, o.TwinNode = doc.Bank, doc.Node, doc.TwinNode
+		}); err != nil {
 			fmt.Printf("REPLAY-VIOLATION property=%s %v\n", doc.Property, err)
 			t.Fatalf("violation reproduced: %v", err)
 		}
@@ -58,14 +63,15 @@ func TestReplay(t *testing.T) {
 	}
 }
 
-func TestC03(t *testing.T) { runMachine(t, CfgC03) }
-func TestC04(t *testing.T) { runMachine(t, CfgC04) }
-func TestC05(t *testing.T) { runMachine(t, CfgC05) }
-func TestC11(t *testing.T) { runMachine(t, CfgC11) }
-func TestC06(t *testing.T) { runMachine(t, CfgC06) }
-func TestC12(t *testing.T) { runMachine(t, CfgC12) }
-func TestC08(t *testing.T) { runMachine(t, CfgC08) }
-func TestC15(t *testing.T) { runMachine(t, CfgC15) }
+func TestC03(t *testing.T)      { runMachine(t, CfgC03) }
+func TestC04(t *testing.T)      { runMachine(t, CfgC04) }
+func TestC05(t *testing.T)      { runMachine(t, CfgC05) }
+func TestC11(t *testing.T)      { runMachine(t, CfgC11) }
+func TestC06(t *testing.T)      { runMachine(t, CfgC06) }
+func TestC12(t *testing.T)      { runMachine(t, CfgC12) }
+func TestC08(t *testing.T)      { runMachine(t, CfgC08) }
+func TestC15(t *testing.T)      { runMachine(t, CfgC15) }
+func TestC14Chain(t *testing.T) { runMachine(t, CfgC14) }
 
 // TestRules prints the non-triviality rule of every machine (read by the driver).
 func TestRules(t *testing.T) {
